@@ -53,18 +53,21 @@ def py_colitem(i, table):
     return py_colarg(i, table)
 
 
-def build(case):
+def start_builder(case):
     from pypika import Table
     Q = qclass(case["cls"])
     kind, tname = case["start"]
     tbl = Table(tname)
     if kind == "into":
-        q = Q.into(tbl)
-    elif kind == "update":
-        q = Q.update(tbl)
-    else:
-        q = Q.from_(tbl).delete()
-    for call in case["calls"]:
+        return Q.into(tbl), tbl
+    if kind == "update":
+        return Q.update(tbl), tbl
+    return Q.from_(tbl).delete(), tbl
+
+
+def apply_calls(q, tbl, calls):
+    from pypika import Table
+    for call in calls:
         k = call[0]
         if k == "columns":
             q = q.columns(*[py_colitem(i, tbl) for i in call[1]])
@@ -87,6 +90,11 @@ def build(case):
     return q
 
 
+def build(case):
+    q, tbl = start_builder(case)
+    return apply_calls(q, tbl, case["calls"])
+
+
 def cell_dump(x):
     n = type(x).__name__
     return (n if n in KINDS else "Term") + ":" + x.get_sql(**CTX)
@@ -102,11 +110,7 @@ def dump(q):
     }
 
 
-def run_b(case):
-    try:
-        q = build(case)
-    except Exception as e:  # noqa
-        return {"build_exc": type(e).__name__}
+def observe(q):
     out = {}
     try:
         out["dump"] = dump(q)
@@ -116,6 +120,32 @@ def run_b(case):
         out["text"] = str(q)
     except Exception as e:  # noqa
         out["text_exc"] = type(e).__name__
+    return out
+
+
+def run_b(case):
+    try:
+        q = build(case)
+    except Exception as e:  # noqa
+        return {"build_exc": type(e).__name__}
+    return observe(q)
+
+
+def run_f(case):
+    """a fork: the prefix is built once and KEPT; every branch is derived from that one object; the prefix is
+    observed again afterwards"""
+    try:
+        q0, tbl = start_builder(case)
+        q0 = apply_calls(q0, tbl, case["prefix"])
+    except Exception as e:  # noqa
+        return {"build_exc": type(e).__name__}
+    out = {"before": observe(q0), "branches": []}
+    for br in case["branches"]:
+        try:
+            out["branches"].append(observe(apply_calls(q0, tbl, br)))
+        except Exception as e:  # noqa
+            out["branches"].append({"build_exc": type(e).__name__})
+    out["after"] = observe(q0)
     return out
 
 
@@ -210,10 +240,10 @@ def modelled(case):
     return True
 
 
-def coq_b(case, outcome):
+def coq_b(case, outcome, calls=None):
     kind, tname = case["start"]
     start = {"into": "SInto", "update": "SUpdate", "delete": "SDelete"}[kind]
-    calls = L([coq_call(c, tname) for c in case["calls"]])
+    calls = L([coq_call(c, tname) for c in (case["calls"] if calls is None else calls)])
     if "build_exc" in outcome:
         built, txt = '(Err %s)' % S(outcome["build_exc"]), '(Err "")'
     else:
@@ -225,6 +255,19 @@ def coq_b(case, outcome):
             L([P(S(a), S(b)) for a, b in d["upds"]]), B(d["replace"]), B(d["ior"]))
         txt = "(Ok %s)" % S(outcome["text"]) if "text" in outcome else "(Err %s)" % S(outcome["text_exc"])
     return "(CaseB %s (%s %s) %s %s %s)" % (qf.CLS_CTOR[case["cls"]], start, tref(tname), calls, built, txt)
+
+
+def coq_f(case, outcome):
+    """every branch is, for the (pure) model, the linear call list prefix ++ branch; the prefix afterwards is the prefix"""
+    if "build_exc" in outcome:
+        return coq_b(case, outcome, calls=case["prefix"])
+    parts = []
+    for br, o in zip(case["branches"], outcome["branches"]):
+        parts.append(coq_b(case, o, calls=case["prefix"] + br))
+    parts.append(coq_b(case, outcome["after"], calls=case["prefix"]))
+    if any(x is None for x in parts):
+        return None
+    return "(CaseF %s)" % L(parts)
 
 
 def coq_q(case, outcome):
